@@ -390,6 +390,9 @@ package leader
 //@   on store kvElection.ctx set e.stopped = false
 //@   ensures C19+C09.refused_start_has_no_effect: result == ErrAlreadyStarted ==> calls(cancel) == 0 && spawns(Start$1) == 0
 //@   ensures C09.start_spawns_one_round: result == nil ==> spawns(Start$1) == 1
+//@   on call ConnectionMonitor.OnDisconnect as c assert C11.wires_disconnect_handler: isfunc(c.arg0, "disconnectHandler.handleDisconnect")
+//@   on call ConnectionMonitor.OnReconnect as c assert C11.wires_reconnect_handler: isfunc(c.arg0, "kvElection.handleReconnect")
+//@   ensures C11.monitor_wired: result == nil && e.connectionMonitor != nil ==> calls(ConnectionMonitor.Start) == 1 && calls(ConnectionMonitor.OnDisconnect) == 1 && calls(ConnectionMonitor.OnReconnect) == 1
 //@   on call becomeFollower assert C07.rounds_never_demote: false
 
 //@ func (e *kvElection) attemptAcquireWithRetry(ctx)
@@ -565,9 +568,41 @@ package leader
 //@   ensures C05+C18.snapshot_token: result.Token == tok0
 
 //@ func (e *kvElection) OnPromote(fn)
-//@   tags C20
+//@   tags C20 C08
+//@   ghost registered Bool = false
+//@   on unlock kvElection.mu set registered = e.onPromote == fn
+//@   ensures C08.promote_callback_registered: registered
 //@ func (e *kvElection) OnDemote(fn)
-//@   tags C20
+//@   tags C20 C08
+//@   ghost registered Bool = false
+//@   on unlock kvElection.mu set registered = e.onDemote == fn
+//@   ensures C08.demote_callback_registered: registered
+
+// accessors: inlined at their call sites (the loads are events of the caller), verified here
+//@ func (e *kvElection) IsLeader()
+//@   tags C02 C18
+//@   flag inline
+//@   ghost v Bool = false
+//@   ghost n Int = 0
+//@   on load kvElection.isLeader as l set v = l.value
+//@   on load kvElection.isLeader set n = n + 1
+//@   ensures C18.is_leader_accessor: n == 1 && result == v
+//@ func (e *kvElection) Token()
+//@   tags C05
+//@   flag inline
+//@   ghost v Int = 0
+//@   ghost n Int = 0
+//@   on load kvElection.token as l set v = l.value
+//@   on load kvElection.token set n = n + 1
+//@   ensures C05.token_accessor: n == 1 && result == v
+//@ func (e *kvElection) LeaderID()
+//@   tags C18
+//@   flag inline
+//@   ghost v Int = 0
+//@   ghost n Int = 0
+//@   on load kvElection.leaderID as l set v = l.value
+//@   on load kvElection.leaderID set n = n + 1
+//@   ensures C18.leader_id_accessor: n == 1 && result == v
 
 //@ func (e *kvElection) validateToken(ctx)
 //@   tags C04 C13 C01
@@ -908,18 +943,55 @@ package leader
 //@ func (m *natsConnectionMonitor) Start(ctx)
 //@   tags C20 C11
 //@   requires C09.nil_ctx: ctx != nil
+//@   on store natsConnectionMonitor.status as s assert C11.monitor_starts_connected: s.value == 0
+//@   on call *nats.Conn.SetDisconnectHandler as c assert C11.registers_disconnect: isfunc(c.arg1, "natsConnectionMonitor.handleDisconnect")
+//@   on call *nats.Conn.SetReconnectHandler as c assert C11.registers_reconnect: isfunc(c.arg1, "natsConnectionMonitor.handleReconnect")
+//@   on call *nats.Conn.SetClosedHandler as c assert C11.registers_closed: isfunc(c.arg1, "natsConnectionMonitor.handleClosed")
+//@   ensures C11.monitor_registers_all: result == nil ==> calls(*nats.Conn.SetDisconnectHandler) == 1 && calls(*nats.Conn.SetReconnectHandler) == 1 && calls(*nats.Conn.SetClosedHandler) == 1
 //@ func (m *natsConnectionMonitor) Stop()
 //@   tags C20 C11
 //@ func (m *natsConnectionMonitor) Status()
-//@   tags C20 C13
+//@   tags C20 C13 C11
+//@   ghost v Int = 0
+//@   on load natsConnectionMonitor.status as l set v = l.value
+//@   ensures C11.status_accessor: result == v
+//@ func (m *natsConnectionMonitor) SetStatus(status)
+//@   tags C11
+//@   on store natsConnectionMonitor.status as s assert C11.set_status_stores_argument: s.value == status
 //@ func (m *natsConnectionMonitor) OnDisconnect(fn)
-//@   tags C20
+//@   tags C20 C11
+//@   ghost registered Bool = false
+//@   on unlock natsConnectionMonitor.mu set registered = m.disconnectHandler == fn
+//@   ensures C11.disconnect_handler_registered: registered
 //@ func (m *natsConnectionMonitor) OnReconnect(fn)
-//@   tags C20
+//@   tags C20 C11
+//@   ghost registered Bool = false
+//@   on unlock natsConnectionMonitor.mu set registered = m.reconnectHandler == fn
+//@   ensures C11.reconnect_handler_registered: registered
 //@ func (m *natsConnectionMonitor) handleDisconnect(nc)
 //@   tags C20 C11
+//@   ghost stored Bool = false
+//@   ghost handlerSet Bool = false
+//@   on store natsConnectionMonitor.status as s assert C11.disconnect_marks_disconnected: s.value == 1
+//@   on store natsConnectionMonitor.status set stored = true
+//@   on load natsConnectionMonitor.disconnectHandler as l set handlerSet = l.value != nil
+//@   on call disconnectHandler assert C11.status_before_handler: stored
+//@   ensures C11.disconnect_notifies: stored && calls(disconnectHandler) == (handlerSet ? 1 : 0) && calls(reconnectHandler) == 0
 //@ func (m *natsConnectionMonitor) handleReconnect(nc)
 //@   tags C20 C11
+//@   ghost stored Bool = false
+//@   ghost handlerSet Bool = false
+//@   on store natsConnectionMonitor.status as s assert C11.reconnect_marks_reconnected: s.value == 2
+//@   on store natsConnectionMonitor.status set stored = true
+//@   on load natsConnectionMonitor.reconnectHandler as l set handlerSet = l.value != nil
+//@   on call reconnectHandler assert C11.status_before_handler: stored
+//@   ensures C11.reconnect_notifies: stored && calls(reconnectHandler) == (handlerSet ? 1 : 0) && calls(disconnectHandler) == 0
+//@ func (m *natsConnectionMonitor) handleClosed(nc)
+//@   tags C11
+//@   ghost stored Bool = false
+//@   on store natsConnectionMonitor.status as s assert C11.closed_marks_closed: s.value == 3
+//@   on store natsConnectionMonitor.status set stored = true
+//@   ensures C11.closed_recorded: stored
 
 // ===========================================================================
 // election.go adapters  (C14)
